@@ -70,19 +70,25 @@ class B:
 
     __repr__ = __str__
 
-    def eval(self, env):
+    def eval(self, env, memo=None):
+        # shared sub-formulas (a chain of != on booleans doubles its operands at every level) are evaluated once
+        if memo is None: memo = {}
+        key = id(self)
+        if key in memo: return memo[key]
         k = self.k
-        if k == 'const': return self.a[0]
-        if k == 'gt0': return alg.evalf(self.a[0], env) > 0
-        if k == 'ge0': return alg.evalf(self.a[0], env) >= 0
-        if k == 'eq0': return alg.evalf(self.a[0], env) == 0
-        if k == 'ne0': return alg.evalf(self.a[0], env) != 0
-        if k == 'not': return not self.a[0].eval(env)
-        if k == 'and': return self.a[0].eval(env) and self.a[1].eval(env)
-        if k == 'or': return self.a[0].eval(env) or self.a[1].eval(env)
-        if k == 'var': return bool(env['__bool__'][self.a[0]])
-        if k == 'truthy': return alg.evalf(self.a[0], env) != 0
-        raise ValueError(k)
+        if k == 'const': r = self.a[0]
+        elif k == 'gt0': r = alg.evalf(self.a[0], env) > 0
+        elif k == 'ge0': r = alg.evalf(self.a[0], env) >= 0
+        elif k == 'eq0': r = alg.evalf(self.a[0], env) == 0
+        elif k == 'ne0': r = alg.evalf(self.a[0], env) != 0
+        elif k == 'not': r = not self.a[0].eval(env, memo)
+        elif k == 'and': r = self.a[0].eval(env, memo) and self.a[1].eval(env, memo)
+        elif k == 'or': r = self.a[0].eval(env, memo) or self.a[1].eval(env, memo)
+        elif k == 'var': r = bool(env['__bool__'][self.a[0]])
+        elif k == 'truthy': r = alg.evalf(self.a[0], env) != 0
+        else: raise ValueError(k)
+        memo[key] = r
+        return r
 
     def atoms(self):
         s = set()
